@@ -38,7 +38,7 @@ func (Engine) Info(prop string) core.Info {
 			"the TNC is a model: it answers as the AGWPE description and Direwolf's documented behaviour say, nothing more",
 		},
 		QuickRuns:    70000,
-		ThoroughRuns: 2000000,
+		ThoroughRuns: 1200000,
 		WatchdogSec:  120,
 	}
 }
